@@ -21,7 +21,8 @@ def main():
     only = sys.argv[2:]
     results = {}
     for d in sorted(os.listdir(root)):
-        if not d.startswith('ref_R') or (only and d[4:] not in only):
+        tag = d[4:] if d.startswith('ref_R') else d
+        if not (d.startswith('ref_R') or (d.startswith('R') and d[1:].isdigit())) or (only and tag not in only):
             continue
         for k in sorted(os.listdir(os.path.join(root, d))):
             patch = os.path.join(root, d, k, 'patch.diff')
@@ -49,7 +50,7 @@ def main():
             finally:
                 sh(f'git -C {REPO} checkout -- .')
                 sh(f'git -C {VERIF} checkout -- evidence')
-    json.dump(results, open('/var/tmp/w/refactor_results.json', 'w'), indent=1)
+    json.dump(results, open(os.environ.get('REFACTOR_RESULTS', '/var/tmp/w/refactor_results.json'), 'w'), indent=1)
 
 
 if __name__ == '__main__':
